@@ -35,3 +35,7 @@ Proof.
             end)
          (check_pol_fail_is_blame T Hfo Hwf p v)).
 Qed.
+
+(* the specification itself is independent of record field order *)
+Theorem C03_member_order_independent : forall T v1 v2, dv_equiv v1 v2 -> member T v1 = member T v2.
+Proof. exact member_equiv. Qed.
